@@ -2110,3 +2110,18 @@ pub fn count_newlines(input: &[u8]) -> (usize, usize) {
 
     (nls, since_nl)
 }
+
+/// Verification hooks (only with `--cfg comrak_verif`): the three 256-entry character tables
+/// that `Subject::new` computes from the options.
+#[cfg(comrak_verif)]
+#[doc(hidden)]
+pub mod verif_hooks {
+    /// `(special_chars, skip_chars, smart_chars)` of a fresh `Subject` built with `options`.
+    pub fn char_tables(options: &crate::Options) -> ([bool; 256], [bool; 256], [bool; 256]) {
+        let arena = typed_arena::Arena::new();
+        let delimiter_arena = typed_arena::Arena::new();
+        let mut refmap = super::RefMap::new();
+        let s = super::Subject::new(&arena, options, b"", 1, &mut refmap, &delimiter_arena);
+        (s.special_chars, s.skip_chars, s.smart_chars)
+    }
+}
